@@ -116,6 +116,7 @@ func TestC02(t *testing.T) {
 	cfg.ReadFaults = 1
 	cfg.Cancels = 3 // callers that go away while their request holds locks
 	cfg.Holds = 2
+	cfg.HandoffCancels = 1
 	cfg.VarSourcesPct = 20 // one cached program, many bindings of its payers (@world among them)
 	runProp(t, c, func(rt *rapid.T) {
 		plan := enginesim.GenPlan(rt, cfg)
@@ -163,6 +164,7 @@ func TestC05(t *testing.T) {
 	cfg.Faults = 1
 	cfg.Cancels = 1
 	cfg.Holds = 1
+	cfg.TickingClockPct = 50 // requests that start later read a later time: dates in the log need not follow its order
 	cfg.SmallBatches = true
 	cfg.RefBurstPct = 20 // several writes in flight together: batches fill up and split
 	cfg.RefPool = nil    // (without a shared reference, so that all of them commit)
@@ -283,6 +285,7 @@ func TestC10(t *testing.T) {
 	cfg.Crashes = 1
 	cfg.ReadFaults = 1
 	cfg.Cancels = 1
+	cfg.HandoffCancels = 2 // the caller of a revert goes away while its entry is in flight, and another revert of the same transaction comes
 	cfg.Holds = 2          // a request that is very slow at one point while another runs from start to finish
 	cfg.LongPrefixPct = 30 // a transaction of 13-24 postings to revert
 	cfg.IKPool = nil
@@ -352,7 +355,7 @@ func TestC11(t *testing.T) {
 	cfg.DryRunPct = 20 // previews carrying a reference race the real writes too
 	cfg.RevertByRef = true
 	cfg.RefBurstPct = 20
-	cfg.RefPool = []string{"", "r1", "r1", "r2", " ", "\t"} // a blank reference is a reference like any other
+	cfg.RefPool = []string{"", "r1", "r1", "r2", " ", "\t", "r1\x00", "\x00r1"} // a blank reference is a reference like any other; so is one that differs from another by an invisible character
 	cfg.MaxPerRound = 4
 	cfg.Crashes = 1
 	cfg.Faults = 1
